@@ -186,7 +186,12 @@ def flp : P String := do
     let v := v.failIf (w.length != n - 1) s!"FactoredLP wrong_weight_count {w.length}"
     let phiW := flpMaxErr S C b addConst w
     let kind := if C.isEmpty && addConst then "error_not_minimal_no_basis" else "error_not_minimal"
-    let v := v.failIf (decide (phiW > opt + tol7 * (1 + absQ opt))) s!"FactoredLP {kind} maxerr={ratStr phiW} flat_optimum={ratStr opt}"
+    -- coefficients of magnitude < 1e-5 (the "ugly" stream) put the instance below lp_solve's own accuracy (LP::getPrecision = 5e-7):
+    -- a gap between 1e-7 and 1e-5 is then reported as ill-conditioned, not as a verdict
+    let tiny := (C ++ b).any (fun f => f.vals.any (fun q => q != 0 && decide (absQ q < 1 / 10^5)))
+    let gap := phiW - opt
+    if tiny && decide (gap > tol7 * (1 + absQ opt)) && decide (gap ≤ (1 / 10^5) * (1 + absQ opt)) then return "skip ill_conditioned" else
+    let v := v.failIf (decide (gap > tol7 * (1 + absQ opt))) s!"FactoredLP {kind} maxerr={ratStr phiW} flat_optimum={ratStr opt}"
     return v.render
 
 def basisMClose (a b : BasisM) : Bool :=
